@@ -110,8 +110,12 @@ class Check:
                 kv["dino"] = 900000 + nmounts
             if not kv:
                 del st[n["path"]]
+        classes = None
+        if rng.random() < 0.2:
+            # the user's configuration replaces extension lists (the active configuration decides the extension classes)
+            classes = {"is_archive": rng.sample([".zip", ".txt", ".gz", ".c", ".x1"], 2), "is_image": rng.sample([".jpg", ".md", ".o", ".py"], 2), "is_source": rng.sample([".rs", ".log", ".tar.gz", ".zip"], 2)}
         return {"sub": "meta", "world": world, "top": top, "plan": plan, "tz": rng.choice(["UTC", "Europe/Berlin", "America/New_York", "Asia/Kolkata"]),
-                "mode": rng.choice(["bfs", "dfs"])}
+                "mode": rng.choice(["bfs", "dfs"]), "classes": classes}
 
     def gen_content(self, rng, tier):
         top = rng.choice(gen.SAFE_ROOTS)
@@ -259,13 +263,18 @@ class Check:
         if top not in nm:
             raise CaseInvalid("root missing")
         cols = ["path", "name", "size", "uid", "gid", "user", "group", "inode", "hardlinks", "blocks", "modified", "accessed", "created", "mode", "is_symlink", "is_hidden", "is_empty"]
+        classes = case.get("classes")
+        config = None
+        if classes:
+            cols += sorted(classes)
+            config = "".join("%s = [%s]\n" % (k, ", ".join('"%s"' % e for e in v)) for k, v in sorted(classes.items()))
         q = "select " + ", ".join(cols) + " from %s %s into list" % (top, case["mode"])
         tz = zoneinfo.ZoneInfo(case["tz"])
         viols = []
         plan = case["plan"]
         with ctx.sandbox(world) as sb:
             gen.validate_model(world, sb.root)
-            res = sb.run([q], plan=plan, tz=case["tz"])
+            res = sb.run([q], plan=plan, tz=case["tz"], config=config)
             if res.sim or res.status != 0 or res.signal is not None:
                 return [Violation(PROP, "C04.meta", ["C04.meta", "abnormal_end", "-"], {"query": q, "outcome": res.summary()})]
             rows = res.rows(len(cols))
@@ -294,6 +303,8 @@ class Check:
                     "is_symlink": "true" if statmod.S_ISLNK(st.st_mode) else "false",
                     "is_hidden": "true" if path.rsplit("/", 1)[-1].startswith(".") else "false",
                 }
+                for k_, exts_ in (classes or {}).items():
+                    want[k_] = "true" if path.rsplit("/", 1)[-1].lower().endswith(tuple(exts_)) else "false"
                 if "atime" in ov:  # asserted only for a simulated answer (the real atime is moved by the run itself)
                     want["accessed"] = datetime.datetime.fromtimestamp(ov["atime"] // 10 ** 9, tz).strftime("%Y-%m-%d %H:%M:%S")
                 if "btime" in ov:
